@@ -236,9 +236,13 @@ class Session:
     self.last = None
     ran0 = self.ran
     nlog = len(self.log)
+    if op.get('_mutate'):
+      self.mutate = True   # the probe alters (after recording) every mutable argument it received
     try:
       return self._op_call_inner(op, ent, args, kwargs, ran0)
     finally:
+      if op.get('_mutate'):
+        self.mutate = False
       del self.log[nlog:]   # the call log belongs to `ecall` (Layer 2); plain calls are observed directly
 
   def _op_call_inner(self, op, ent, args, kwargs, ran0):
